@@ -259,6 +259,17 @@ func histories(t *testing.T, shard int) {
 				}
 				sort.Strings(cand)
 				ch := cand[rng.Intn(len(cand))]
+				if cls == "data" && rng.Intn(3) == 0 {
+					// the chunk is served to a peer: the node records that peer's availability too
+					kind = "serve-to-peer"
+					peer := boson.NewAddress(append([]byte{0xEE, byte(rng.Intn(3))}, make([]byte, 30)...))
+					hist = append(hist, opRec{Op: kind, File: fi, Arg: ch[:10]})
+					if err := w.N.CI.OnChunkTransferred(boson.MustParseHexAddress(ch), f.Root, peer, w.N.Addr); err != nil {
+						hist[len(hist)-1].Note = err.Error()
+					}
+					deleted[fi] = false
+					break
+				}
 				kind = "read-" + cls
 				hist = append(hist, opRec{Op: kind, File: fi, Arg: ch[:10]})
 				ctx := sctx.SetRootHash(context.Background(), f.Root)
@@ -268,6 +279,16 @@ func histories(t *testing.T, shard int) {
 				}
 			case x < 16:
 				kind = "restart"
+				if rng.Intn(4) == 0 {
+					// the node comes back with its state store but without its chunk database
+					kind = "restart-empty-store"
+					hist = append(hist, opRec{Op: kind, File: -1})
+					if err := w.RestartWithEmptyStore(); err != nil {
+						t.Fatalf("restart: %v", err)
+					}
+					restarts++
+					break
+				}
 				hist = append(hist, opRec{Op: kind, File: -1})
 				if err := w.Restart(); err != nil {
 					t.Fatalf("restart: %v", err)
